@@ -824,13 +824,14 @@ void world_build(const plan *p)
     }
     cmb_logger_flags_off(CMB_LOGGER_INFO | CMB_LOGGER_WARNING);
     cmb_event_queue_initialize(t0);
-    char nm[32];
-    for (int r = 0; r < W.nres; r++) { W.res[r] = cmb_resource_create(); snprintf(nm, sizeof nm, "R%d", r); cmb_resource_initialize(W.res[r], nm); W.res_holder[r] = -1; add_guard(&W.res[r]->guard, GC_RES, r); }
-    for (int k = 0; k < W.npool; k++) { W.pool[k] = cmb_resourcepool_create(); snprintf(nm, sizeof nm, "L%d", k); cmb_resourcepool_initialize(W.pool[k], nm, W.poolcap[k]); add_guard(&W.pool[k]->guard, GC_POOL, k); }
-    for (int k = 0; k < W.nbuf; k++) { W.buf[k] = cmb_buffer_create(); snprintf(nm, sizeof nm, "B%d", k); cmb_buffer_initialize(W.buf[k], nm, W.bufcap[k]); add_guard(&W.buf[k]->front_guard, GC_BUF_FRONT, k); add_guard(&W.buf[k]->rear_guard, GC_BUF_REAR, k); }
-    for (int k = 0; k < W.noq; k++) { W.oq[k] = cmb_objectqueue_create(); snprintf(nm, sizeof nm, "Q%d", k); cmb_objectqueue_initialize(W.oq[k], nm, W.oqcap[k]); add_guard(&W.oq[k]->front_guard, GC_OQ_FRONT, k); add_guard(&W.oq[k]->rear_guard, GC_OQ_REAR, k); }
-    for (int k = 0; k < W.npq; k++) { W.pq[k] = cmb_priorityqueue_create(); snprintf(nm, sizeof nm, "K%d", k); cmb_priorityqueue_initialize(W.pq[k], nm, W.pqcap[k]); add_guard(&W.pq[k]->front_guard, GC_PQ_FRONT, k); add_guard(&W.pq[k]->rear_guard, GC_PQ_REAR, k); }
-    for (int k = 0; k < W.ncond; k++) { W.cond[k] = cmb_condition_create(); snprintf(nm, sizeof nm, "C%d", k); cmb_condition_initialize(W.cond[k], nm); add_guard(&W.cond[k]->guard, GC_COND, k); }
+    char nm[128];
+    const bool longnames = (p->seed & 1u) != 0;       /* names beyond the library's 32-byte name buffers in half of the runs */
+    for (int r = 0; r < W.nres; r++) { W.res[r] = cmb_resource_create(); snprintf(nm, sizeof nm, longnames ? "R%d-a-resource-with-a-name-far-beyond-the-thirty-two-characters-of-the-name-buffer" : "R%d", r); cmb_resource_initialize(W.res[r], nm); W.res_holder[r] = -1; add_guard(&W.res[r]->guard, GC_RES, r); }
+    for (int k = 0; k < W.npool; k++) { W.pool[k] = cmb_resourcepool_create(); snprintf(nm, sizeof nm, longnames ? "L%d-an-object-with-a-name-far-beyond-the-thirty-two-characters-of-the-name-buffer" : "L%d", k); cmb_resourcepool_initialize(W.pool[k], nm, W.poolcap[k]); add_guard(&W.pool[k]->guard, GC_POOL, k); }
+    for (int k = 0; k < W.nbuf; k++) { W.buf[k] = cmb_buffer_create(); snprintf(nm, sizeof nm, longnames ? "B%d-an-object-with-a-name-far-beyond-the-thirty-two-characters-of-the-name-buffer" : "B%d", k); cmb_buffer_initialize(W.buf[k], nm, W.bufcap[k]); add_guard(&W.buf[k]->front_guard, GC_BUF_FRONT, k); add_guard(&W.buf[k]->rear_guard, GC_BUF_REAR, k); }
+    for (int k = 0; k < W.noq; k++) { W.oq[k] = cmb_objectqueue_create(); snprintf(nm, sizeof nm, longnames ? "Q%d-an-object-with-a-name-far-beyond-the-thirty-two-characters-of-the-name-buffer" : "Q%d", k); cmb_objectqueue_initialize(W.oq[k], nm, W.oqcap[k]); add_guard(&W.oq[k]->front_guard, GC_OQ_FRONT, k); add_guard(&W.oq[k]->rear_guard, GC_OQ_REAR, k); }
+    for (int k = 0; k < W.npq; k++) { W.pq[k] = cmb_priorityqueue_create(); snprintf(nm, sizeof nm, longnames ? "K%d-an-object-with-a-name-far-beyond-the-thirty-two-characters-of-the-name-buffer" : "K%d", k); cmb_priorityqueue_initialize(W.pq[k], nm, W.pqcap[k]); add_guard(&W.pq[k]->front_guard, GC_PQ_FRONT, k); add_guard(&W.pq[k]->rear_guard, GC_PQ_REAR, k); }
+    for (int k = 0; k < W.ncond; k++) { W.cond[k] = cmb_condition_create(); snprintf(nm, sizeof nm, longnames ? "C%d-an-object-with-a-name-far-beyond-the-thirty-two-characters-of-the-name-buffer" : "C%d", k); cmb_condition_initialize(W.cond[k], nm); add_guard(&W.cond[k]->guard, GC_COND, k); }
 
     /* processes: defaults, then P lines */
     bool slot_used[MAXP]; memset(slot_used, 0, sizeof slot_used);
@@ -865,7 +866,7 @@ void world_build(const plan *p)
         proc *pr = &PR[i];
         pr->pp = &arena[pr->slot];
         memset(pr->pp, 0, sizeof *pr->pp);
-        snprintf(nm, sizeof nm, "P%d", i);
+        snprintf(nm, sizeof nm, longnames ? "P%d-a-process-with-a-name-far-beyond-the-thirty-two-characters-of-the-name-buffer" : "P%d", i);
         cmb_process_initialize(pr->pp, nm, proc_body, pr, pr->prio0);
         pr->created = true;
     }
